@@ -2452,3 +2452,220 @@ def t_alt_jump(facts, res, tier):
                     res.fail(key, facts.where(fn, prev), "%s: `label(%s)` opens the second alternative and the statement before it is `%s`, not the unconditional jump to %s: the first alternative can run into the second" % (fn["name"], E, expr_text(prev)[:70], " / ".join(later)))
     if n == 0:
         raise AnchorMissing("no two-alternative layout found in the generator")
+
+
+@rule("T-WIDE-SIBLINGS", floor=2,
+      text="where generate_expr decides whether a destination needs the second (high byte) pass, it does so in a `match` on the destination with one arm "
+           "for a cell at a fixed offset (`Absolute`) and one for a cell indexed by a register (`AbsoluteX | AbsoluteY`).  `t[1]` and `t[X]` are "
+           "elements of the same array: every variable type the indexed arm calls 16 bits wide (`v.var_type == VariableType::T`) is one the "
+           "fixed-offset arm calls 16 bits wide too (the same test, or `!eight_bits` alone, which stands for all of them).  `ptrs[1] += 300` "
+           "otherwise adds to the low byte only while `ptrs[X] += 300` and `ptrs[1] = ptrs[1] + 300` carry")
+def t_wide_siblings(facts, res, tier):
+    fn = facts.fn("generate_expr", genmodel.GEN_QUAL)
+    par = _parents(fn["body"])
+    n = 0
+    seen = set()
+    for c in walk(fn["body"]):
+        if not (_self_call(c, ("generate_assign",)) and c.get("args") and c["args"][-1].get("k") == "lit" and c["args"][-1].get("v") is True):
+            continue
+        q = c
+        m = None
+        while q is not None:
+            pq, kq, iq = par.get(id(q), (None, None, None))
+            if pq is not None and pq.get("k") == "match" and kq == "arms":
+                pats = [pat_text(a["pat"]).replace(" ", "") for a in pq["arms"]]
+                if any(p.startswith("ExprType::Absolute(") for p in pats) and any("ExprType::AbsoluteX(" in p for p in pats):
+                    m = pq
+                    break
+            q = pq
+        if m is None or id(m) in seen:
+            continue
+        seen.add(id(m))
+
+        def types_of(arm):
+            """the variable types under which the arm runs its second pass; 'ALL' when the width flag alone decides"""
+            conds = [x["cond"] for x in walk(arm["body"]) if x.get("k") == "if" and any(_self_call(y, ("generate_assign",)) for y in walk(x["then"]))]
+            if not conds:
+                return None
+            t = expr_text(conds[0]).replace(" ", "")
+            if re.fullmatch(r"\(?!eight_bits\)?", t):
+                return "ALL"
+            return set(re.findall(r"var_type==VariableType::(\w+)", t))
+
+        fixed = next(a for a in m["arms"] if pat_text(a["pat"]).replace(" ", "").startswith("ExprType::Absolute("))
+        idxd = next(a for a in m["arms"] if "ExprType::AbsoluteX(" in pat_text(a["pat"]).replace(" ", ""))
+        tf, ti = types_of(fixed), types_of(idxd)
+        # name the site by the operator arm of generate_expr it belongs to
+        q = m
+        site = "?"
+        while q is not None:
+            pq, kq, iq = par.get(id(q), (None, None, None))
+            if pq is not None and pq.get("k") == "match" and kq == "arms" and "Operation::" in pat_text(q["pat"]):
+                site = pat_text(q["pat"]).replace(" ", "")[:40]
+                break
+            q = pq
+        n += 1
+        key = "T-WIDE-SIBLINGS:%s" % site
+        res.inst(key, True, {"arm": site, "fixed_offset_types": sorted(tf) if isinstance(tf, set) else tf, "indexed_types": sorted(ti) if isinstance(ti, set) else ti})
+        if tf is None or ti is None:
+            res.fail(key, facts.where(fn, m), "generate_expr, arm %s: the second pass of one of the two destination arms has no type test the rule can read" % site)
+        elif tf != "ALL" and ti == "ALL":
+            res.fail(key, facts.where(fn, fixed["body"]), "generate_expr, arm %s: the indexed destination takes the second pass for every 16-bit type, the fixed-offset one only for %s" % (site, sorted(tf)))
+        elif tf != "ALL" and not ti <= tf:
+            res.fail(key, facts.where(fn, fixed["body"]), "generate_expr, arm %s: an element reached with a register subscript is 16 bits wide for %s, the same element reached with a constant subscript is not (%s): its high byte is never written" % (site, sorted(ti - tf), sorted(tf)))
+    if n == 0:
+        raise AnchorMissing("generate_expr: no destination match with a fixed-offset and an indexed arm around a second pass")
+
+
+def _mn_of(ev):
+    a = ev.get("args") or []
+    return getattr(a[0], "variant", None) if a else None
+
+
+@rule("T-SHIFT-HIGH", floor=20,
+      text="generate_shift is also called in the high byte pass of a 16-bit evaluation (high_byte = true).  The shift instructions it emits (ASL, LSR, "
+           "ROR on the accumulator) work on the low byte it has just loaded; only the special cases that return before them (a shift by 8 hands "
+           "over the other byte, or zero) know what the high byte of the result is.  On every path of generate_shift that returns normally after "
+           "emitting a shift instruction, high_byte is false: `s = c << 2` otherwise stores `c << 2` in both bytes of s")
+def t_shift_high(facts, res, tier):
+    from walker import Sym
+    fn = facts.fn("generate_shift", genmodel.GEN_QUAL)
+    n = bad = 0
+    where = None
+    for kind, value, st in genmodel.fn_paths(facts, fn):
+        if genmodel.is_error_exit(value):
+            continue
+        sh = [e for e in st.events if e["kind"] == "sasm" and _mn_of(e) in ("ASL", "LSR", "ROR", "ROL")]
+        if not sh:
+            continue
+        n += 1
+        hb = genmodel.domain_of(st, Sym("high_byte", "bool"), facts)
+        if hb is None or True in hb:
+            bad += 1
+            where = where or sh[0]["node"]
+    res.inst("T-SHIFT-HIGH:generate_shift", True, {"normal_paths_that_shift": n, "with_high_byte_possible": bad})
+    for i in range(min(n, 40)):
+        res.inst("T-SHIFT-HIGH:generate_shift:path#%d" % i, True, {})
+    if n == 0:
+        raise AnchorMissing("generate_shift: no normal path emits a shift instruction")
+    if bad:
+        res.fail("T-SHIFT-HIGH:generate_shift", facts.where(fn, where), "%d of %d normal paths of generate_shift emit ASL/LSR/ROR while high_byte may be true: in the high byte pass the low byte is shifted again and stored as the high byte of the result" % (bad, n))
+
+
+@rule("T-CARRY-LOWPASS", floor=10,
+      text="the high byte pass of an addition or subtraction emits ADC / SBC without CLC / SEC: it takes the carry of the low byte pass.  Every path "
+           "of generate_arithm for Add / Sub with high_byte = false that returns normally therefore leaves a defined carry: it emits CLC (SEC) - "
+           "whether or not the ADC that follows is elided.  The path that folds two constants emits nothing; it is sound when the high byte "
+           "pass folds too, and not when the low byte of an operand was a constant only in this pass (`c << 8` is Immediate(0) in the low byte pass): "
+           "`s = 0x1000 + (c << 8)` then adds whatever carry the previous statement left")
+def t_carry_lowpass(facts, res, tier):
+    from walker import Sym
+    fn = facts.fn("generate_arithm", genmodel.GEN_QUAL)
+    n = 0
+    groups = {}
+    for kind, value, st in genmodel.fn_paths(facts, fn):
+        if genmodel.is_error_exit(value):
+            continue
+        hb = genmodel.domain_of(st, Sym("high_byte", "bool"), facts)
+        if hb is not None and False not in hb:
+            continue
+        ops = genmodel.domain_of(st, Sym("op", "Operation"), facts)
+        ops = {o for o in (ops or {"Add", "Sub"}) if o in ("Add", "Sub")}
+        if not ops:
+            continue
+        n += 1
+        sets = [e for e in st.events if e["kind"] == "sasm" and _mn_of(e) in ("CLC", "SEC")]
+        emits = [e for e in st.events if e["kind"] in ("sasm", "asm")]
+        shape = "carry-set" if sets else ("nothing-emitted" if not emits else "emits-without-setting-carry")
+        for o in ops:
+            groups.setdefault((o, shape), []).append(st)
+    if n == 0:
+        raise AnchorMissing("generate_arithm: no normal low-byte path for Add/Sub")
+    for (o, shape), sts in sorted(groups.items()):
+        key = "T-CARRY-LOWPASS:generate_arithm:%s:%s" % (o, shape)
+        res.inst(key, True, {"operation": o, "paths": len(sts), "shape": shape})
+        for i in range(min(len(sts), 8)):
+            res.inst(key + "#%d" % i, True, {})
+        if shape != "carry-set":
+            res.fail(key, facts.where(fn, fn["body"]), "generate_arithm returns normally from the low byte pass of %s on %d path(s) that %s: the ADC/SBC of the high byte pass takes a carry nobody defined" % (
+                o, len(sts), "emit nothing (both operands constant in this pass)" if shape == "nothing-emitted" else "emit code without CLC/SEC"))
+
+
+@rule("T-LITERAL-SIZE", floor=3,
+      text="a variable the compiler makes for a string literal records the bytes (`def: VariableDefinition::Array(bytes)`) and their number (`size`).  "
+           "Wherever compile.rs builds such a Variable with a `size` that is the `.len()` of a vector, that vector is the one given as the definition - "
+           "not another vector in scope (the table being filled, whose length is the index of the literal in it)")
+def t_literal_size(facts, res, tier):
+    from scopes import scoped
+    n = 0
+    for fn in facts.fns:
+        if not fn["file"].endswith("/compile.rs") or fn.get("test"):
+            continue
+        for node, env, doms in scoped(fn):
+            if not (node.get("k") == "struct" and (node.get("segs") or [""])[-1] == "Variable"):
+                continue
+            flds = {f["name"]: f.get("e") for f in node.get("fields", [])}
+            d, sz = flds.get("def"), flds.get("size")
+            if d is None or d.get("k") != "call" or expr_text(d["func"]).replace(" ", "") != "VariableDefinition::Array" or not d["args"]:
+                continue
+            vec = expr_text(d["args"][0]).replace(" ", "")
+            # the size: a local bound to `<x>.len()`, or that call itself
+            e = sz if sz is not None else {"k": "path", "segs": ["size"]}
+            if e.get("k") == "path" and len(e["segs"]) == 1:
+                b = env.get(e["segs"][0])
+                e = b.init if b is not None and b.init is not None else e
+            if not (isinstance(e, dict) and e.get("k") == "mcall" and e["method"] == "len"):
+                continue
+            n += 1
+            key = "T-LITERAL-SIZE:%s:%s" % (fn["name"], vec)
+            src = expr_text(e["recv"]).replace(" ", "")
+            res.inst(key, True, {"function": fn["name"], "definition": vec, "size_is_len_of": src})
+            if src != vec:
+                res.fail(key, facts.where(fn, node), "%s makes a variable whose bytes are `%s` and whose size is `%s.len()`: the size recorded for the literal is the length of another vector" % (fn["name"], vec, src))
+    if n == 0:
+        raise AnchorMissing("compile.rs: no Variable literal with an Array definition and a size taken from a len()")
+
+
+@rule("T-SIZE-SUM", floor=3,
+      text="the byte size of an asm statement is whatever number the program wrote after the text (up to 2^31-1).  Wherever the assembler layer adds "
+           "the size of an Inline line (the second component of AsmLine::Inline, bound in a pattern) to a running count, the addition cannot overflow: "
+           "it is `count = count.saturating_add(size)` (or checked), and every other update of the same count is of that kind too - once the count "
+           "has saturated, a plain `+= nb_bytes` overflows in its turn.  Three asm statements of declared size 2^31-1 in a loop otherwise panic in "
+           "check_branches (debug) or give a wrapped distance under which a branch that is too far is left alone (release)")
+def t_size_sum(facts, res, tier):
+    from scopes import scoped
+    n = 0
+    for fn in facts.fns:
+        if not fn["file"].endswith("assemble.rs") or fn.get("test"):
+            continue
+        counts = {}
+        plain = []
+        for node, env, doms in scoped(fn):
+            k = node.get("k")
+            sizes = {b.name for b in env.values() if b.src == "pat" and (b.ctor or [""])[-1] == "Inline" and b.idx == 1}
+            if k == "assignop" and node.get("op") in ("+", "-", "*"):
+                tgt = expr_text(node["l"]).replace(" ", "")
+                plain.append((tgt, node))
+                if any(_mentions(node["r"], s) for s in sizes):
+                    n += 1
+                    key = "T-SIZE-SUM:%s:%s" % (fn["name"], tgt)
+                    res.inst(key, True, {"function": fn["name"], "count": tgt})
+                    res.fail(key, facts.where(fn, node), "%s adds the declared size of an asm statement to `%s` with `%s=`: the sum of a few such sizes overflows u32" % (fn["name"], tgt, node["op"]))
+            elif k == "binary" and node["op"] in ("+", "*") and any(_mentions(node, s) for s in sizes):
+                n += 1
+                key = "T-SIZE-SUM:%s:expr" % fn["name"]
+                res.inst(key, True, {"function": fn["name"]})
+                res.fail(key, facts.where(fn, node), "%s computes `%s` with the declared size of an asm statement: it can overflow" % (fn["name"], expr_text(node)[:60]))
+            elif k == "assign" and node["r"].get("k") == "mcall" and node["r"]["method"] in ("saturating_add", "checked_add", "wrapping_add") and any(_mentions(a, s) for a in node["r"]["args"] for s in sizes):
+                n += 1
+                tgt = expr_text(node["l"]).replace(" ", "")
+                key = "T-SIZE-SUM:%s:%s" % (fn["name"], tgt)
+                res.inst(key, True, {"function": fn["name"], "count": tgt, "how": node["r"]["method"]})
+                counts[tgt] = node
+                if node["r"]["method"] == "wrapping_add":
+                    res.fail(key, facts.where(fn, node), "%s lets `%s` wrap: a distance that wrapped is small again" % (fn["name"], tgt))
+        for tgt, node in plain:
+            if tgt in counts:
+                res.fail("T-SIZE-SUM:%s:%s" % (fn["name"], tgt), facts.where(fn, node), "%s: `%s` saturates when the size of an asm statement is added, and is then updated with a plain `%s=`: that addition overflows once the count has saturated" % (fn["name"], tgt, node["op"]))
+    if n == 0:
+        raise AnchorMissing("assemble.rs: no sum involving the size of an Inline line")
